@@ -9,6 +9,8 @@ From Piko Require Import Conc.LockOrder Conc.Acyclic Conc.Expected Conc.Quiescen
 From Piko Require Conc.Atomic ConcP.AtomicP.
 From Piko Require Import ConcP.LockOrderP ConcP.AcyclicP ConcP.QuiescentP ConcP.LockEdgesP.
 From Piko Require Import generated.LockEdges.
+From Coq Require Import ZArith.
+From Piko Require Import Conc.Schedule ConcP.ScheduleP.
 Import ListNotations.
 
 (* generic: "if there is a strict order on mutexes such that every thread only acquires mutexes above all those
@@ -114,6 +116,27 @@ Theorem C20_registry_changes_publish_under_manager_lock :
   (forall hs, holders_present hs = true -> forall r, In r required_holders -> In r hs).
 Proof. exact (conj lock_holders_required holders_present_sound). Qed.
 
+(* "... never deadlock, panic ..., and every operation completes in bounded time": the periodic tasks themselves (gossip round,
+   liveness evaluation, compaction, expiry: gossip.go schedule / scheduleFunc). Each fires on a ticker and waits a random
+   jitter first (Conc/Schedule.v, the random number is an oracle). For EVERY interval the configuration accepts and every
+   random number the jitter is defined and at most a tenth of the interval, so every run starts within its own period.
+   The same clause is FALSE of the pinned tree (finding S1, repaired by the commit "fix: compute the gossip scheduling
+   jitter on the duration ..."): `rand.Int63() % interval.Milliseconds()` divides by zero for every interval below one
+   millisecond - all of which Config.Validate accepts - and the panic on the task's goroutine kills the process. *)
+Theorem C20_schedule_jitter_total :
+  forall interval r, interval_ok interval = true -> exists j, jitter interval r = Some j /\ (0 <= j <= interval / 10)%Z.
+Proof. exact jitter_total. Qed.
+
+Theorem C20_schedule_run_within_period :
+  forall interval k r j, interval_ok interval = true -> jitter interval r = Some j -> (1 <= k)%Z ->
+  (k * interval <= run_time interval k j <= k * interval + interval / 10)%Z /\ (run_time interval k j < (k + 1) * interval)%Z.
+Proof. exact run_within_period. Qed.
+
+Theorem C20_schedule_refuted_pinned :
+  (exists interval r, interval_ok interval = true /\ jitter_pinned interval r = None /\ jitter interval r <> None) /\
+  (forall interval r, interval_ok interval = true -> (jitter_pinned interval r = None <-> (interval < 1000000)%Z)).
+Proof. exact (conj jitter_pinned_refuted jitter_pinned_defined_iff). Qed.
+
 Print Assumptions C20_atomic_calls_consistent.
 Print Assumptions C20_early_unlock_refuted.
 Print Assumptions C20_ordered_no_deadlock.
@@ -131,3 +154,6 @@ Print Assumptions C20_broken_script_rejected.
 Print Assumptions C20_broken_script_deadlocks.
 Print Assumptions C20_quiescent_consistent.
 Print Assumptions C20_registry_changes_publish_under_manager_lock.
+Print Assumptions C20_schedule_jitter_total.
+Print Assumptions C20_schedule_run_within_period.
+Print Assumptions C20_schedule_refuted_pinned.
